@@ -579,6 +579,11 @@ def check_extra(case, ctx):
     ctx.close('C01.extra/FreeTrans:default-n_degrees', FreeTrans(molecular_weight=mw_).get_SoR(T=T, P=1.0),
               FreeTrans(n_degrees=3, molecular_weight=mw_).get_SoR(T=T, P=1.0), rtol=0)
     ctx.close('C01.extra/FreeTrans:default-n_degrees', FreeTrans(molecular_weight=mw_).get_CvoR(), 1.5, rtol=0)
+    # documented default interaction energy of the Einstein crystal: 0 eV (the Debye model requires it)
+    from pmutt.statmech.vib import EinsteinVib
+    th_ = 100.0 + 100.0 * case['D0']
+    ctx.close('C01.extra/EinsteinVib:default-interaction-energy', EinsteinVib(einstein_temperature=th_).get_UoRT(T=T),
+              EinsteinVib(einstein_temperature=th_, interaction_energy=0.).get_UoRT(T=T), rtol=0)
     # documented default potential energy: none given means 0
     if GroundStateElec().get_UoRT(T=T) != 0 or GroundStateElec(spin=case['spin']).get_HoRT(T=T) != 0:
         ctx.fail('C01.extra/GroundStateElec:default-energy', 'no potential energy given, U/RT = %r' % GroundStateElec().get_UoRT(T=T))
